@@ -8,7 +8,8 @@
   Every law relates two or three RUNS of a model; the statements have the form
   "the runs succeed and their results are related", under the hypotheses of the
   end-to-end theorems (the duplicate policy accepts the events, the 32-bit size
-  conditions, `events_per_temporary_file ≥ 2`, `n_outcomes_per_job ≥ 1`).
+  conditions, `CfgOK`: `2 ≤ events_per_temporary_file < 2³²`, `1 ≤ n_outcomes_per_job`,
+  OpenMP `#outcome labels + n_outcomes_per_job < 2³²`).
 -/
 import PyndlProofs.Laws
 import PyndlProofs.Dict
@@ -163,9 +164,9 @@ end Spec
     whose policy-processed events look the same from outcome `o` return the
     same weights for `o` at every cue -/
 theorem ndlModel_row_depends_only (magic version : Nat) (hm : magic < 4294967296) (hv : version < 4294967296)
-    (cfg₁ cfg₂ : NdlCfg) (hper₁ : 2 ≤ cfg₁.perFile) (hjob₁ : 1 ≤ cfg₁.perJob)
-    (hper₂ : 2 ≤ cfg₂.perFile) (hjob₂ : 1 ≤ cfg₂.perJob) (alpha β₁ β₂ lam : R)
+    (cfg₁ cfg₂ : NdlCfg) (alpha β₁ β₂ lam : R)
     (es₁ es₂ es₁' es₂' : List (Event String String)) (o : String)
+    (hcfg₁ : CfgOK cfg₁ (countNames es₁).2.length) (hcfg₂ : CfgOK cfg₂ (countNames es₂).2.length)
     (hp₁ : applyPolicyAll cfg₁.policy es₁ = some es₁') (hp₂ : applyPolicyAll cfg₂.policy es₂ = some es₂')
     (hfit₁ : Fits32 es₁) (hfit₂ : Fits32 es₂)
     (hview : es₁'.map (fun e => (e.cues, decide (o ∈ e.outcomes)))
@@ -173,8 +174,8 @@ theorem ndlModel_row_depends_only (magic version : Nat) (hm : magic < 4294967296
     ∃ a b, ndlModel magic version cfg₁ alpha β₁ β₂ lam none es₁ = .ok (a, es₁.length) ∧
       ndlModel magic version cfg₂ alpha β₁ β₂ lam none es₂ = .ok (b, es₂.length) ∧
       ∀ c, a.get o c = b.get o c := by
-  obtain ⟨a, a1, a2⟩ := ndlModel_eq_spec magic version hm hv cfg₁ hper₁ hjob₁ alpha β₁ β₂ lam es₁ es₁' hp₁ hfit₁
-  obtain ⟨b, b1, b2⟩ := ndlModel_eq_spec magic version hm hv cfg₂ hper₂ hjob₂ alpha β₁ β₂ lam es₂ es₂' hp₂ hfit₂
+  obtain ⟨a, a1, a2⟩ := ndlModel_eq_spec magic version hm hv cfg₁ alpha β₁ β₂ lam es₁ es₁' hcfg₁ hp₁ hfit₁
+  obtain ⟨b, b1, b2⟩ := ndlModel_eq_spec magic version hm hv cfg₂ alpha β₁ β₂ lam es₂ es₂' hcfg₂ hp₂ hfit₂
   refine ⟨a, b, a1, b1, ?_⟩
   intro c
   rw [a2, b2]
@@ -184,9 +185,11 @@ theorem ndlModel_row_depends_only (magic version : Nat) (hm : magic < 4294967296
     `f` and the outcomes by an injection `g` in the event file renames the
     returned labelled matrix -/
 theorem ndlModel_rename_equivariant (magic version : Nat) (hm : magic < 4294967296) (hv : version < 4294967296)
-    (cfg : NdlCfg) (hper : 2 ≤ cfg.perFile) (hjob : 1 ≤ cfg.perJob) (alpha β₁ β₂ lam : R)
+    (cfg : NdlCfg) (alpha β₁ β₂ lam : R)
     (f g : String → String) (hf : Function.Injective f) (hg : Function.Injective g)
     (es es' : List (Event String String)) (hp : applyPolicyAll cfg.policy es = some es')
+    (hcfg : CfgOK cfg (countNames es).2.length)
+    (hcfg' : CfgOK cfg (countNames (es.map (fun e => ⟨e.cues.map f, e.outcomes.map g⟩))).2.length)
     (hfit : Fits32 es) (hfit' : Fits32 (es.map (fun e => ⟨e.cues.map f, e.outcomes.map g⟩))) :
     ∃ a b, ndlModel magic version cfg alpha β₁ β₂ lam none es = .ok (a, es.length) ∧
       ndlModel magic version cfg alpha β₁ β₂ lam none (es.map (fun e => ⟨e.cues.map f, e.outcomes.map g⟩))
@@ -194,8 +197,8 @@ theorem ndlModel_rename_equivariant (magic version : Nat) (hm : magic < 42949672
       ∀ o c, b.get (g o) (f c) = a.get o c := by
   have hp' := applyPolicyAll_map f g cfg.policy es es' (fun _ _ a _ b _ h => hf h)
     (fun _ _ a _ b _ h => hg h) hp
-  obtain ⟨a, a1, a2⟩ := ndlModel_eq_spec magic version hm hv cfg hper hjob alpha β₁ β₂ lam es es' hp hfit
-  obtain ⟨b, b1, b2⟩ := ndlModel_eq_spec magic version hm hv cfg hper hjob alpha β₁ β₂ lam _ _ hp' hfit'
+  obtain ⟨a, a1, a2⟩ := ndlModel_eq_spec magic version hm hv cfg alpha β₁ β₂ lam es es' hcfg hp hfit
+  obtain ⟨b, b1, b2⟩ := ndlModel_eq_spec magic version hm hv cfg alpha β₁ β₂ lam _ _ hcfg' hp' hfit'
   refine ⟨a, b, a1, ?_, ?_⟩
   · rw [b1, List.length_map]
   · intro o c
@@ -206,17 +209,19 @@ theorem ndlModel_rename_equivariant (magic version : Nat) (hm : magic < 42949672
 /-- **affine in the initial weights, for `ndl.ndl`**: three continued runs — from a
     labelled matrix denoting `w + v` with λ, from `w` with λ, from `v` with λ = 0 -/
 theorem ndlModel_affine (magic version : Nat) (hm : magic < 4294967296) (hv : version < 4294967296)
-    (cfg : NdlCfg) (hper : 2 ≤ cfg.perFile) (hjob : 1 ≤ cfg.perJob) (alpha β₁ β₂ lam : R)
+    (cfg : NdlCfg) (alpha β₁ β₂ lam : R)
     (w v s : LW R) (hs : ∀ o c, s.get o c = w.get o c + v.get o c)
     (es es' : List (Event String String)) (hp : applyPolicyAll cfg.policy es = some es')
+    (hcw : CfgOK cfg (mergedOutcomes w es).length) (hcv : CfgOK cfg (mergedOutcomes v es).length)
+    (hcs : CfgOK cfg (mergedOutcomes s es).length)
     (fw : Fits32With w es) (fv : Fits32With v es) (fs : Fits32With s es) :
     ∃ rs rw rv, ndlModel magic version cfg alpha β₁ β₂ lam (some s) es = .ok (rs, es.length) ∧
       ndlModel magic version cfg alpha β₁ β₂ lam (some w) es = .ok (rw, es.length) ∧
       ndlModel magic version cfg alpha β₁ β₂ 0 (some v) es = .ok (rv, es.length) ∧
       ∀ o c, rs.get o c = rw.get o c + rv.get o c := by
-  obtain ⟨rs, s1, s2⟩ := ndlModel_continue_eq_spec magic version hm hv cfg hper hjob alpha β₁ β₂ lam s es es' hp fs
-  obtain ⟨rw, w1, w2⟩ := ndlModel_continue_eq_spec magic version hm hv cfg hper hjob alpha β₁ β₂ lam w es es' hp fw
-  obtain ⟨rv, v1, v2⟩ := ndlModel_continue_eq_spec magic version hm hv cfg hper hjob alpha β₁ β₂ 0 v es es' hp fv
+  obtain ⟨rs, s1, s2⟩ := ndlModel_continue_eq_spec magic version hm hv cfg alpha β₁ β₂ lam s es es' hcs hp fs
+  obtain ⟨rw, w1, w2⟩ := ndlModel_continue_eq_spec magic version hm hv cfg alpha β₁ β₂ lam w es es' hcw hp fw
+  obtain ⟨rv, v1, v2⟩ := ndlModel_continue_eq_spec magic version hm hv cfg alpha β₁ β₂ 0 v es es' hcv hp fv
   refine ⟨rs, rw, rv, s1, w1, v1, ?_⟩
   intro o c
   rw [s2, w2, v2, ← rwLearn_add]
@@ -226,13 +231,14 @@ theorem ndlModel_affine (magic version : Nat) (hm : magic < 4294967296) (hv : ve
 
 /-- **proportional to λ from zero, for `ndl.ndl`** -/
 theorem ndlModel_lambda_homogeneous (magic version : Nat) (hm : magic < 4294967296) (hv : version < 4294967296)
-    (cfg : NdlCfg) (hper : 2 ≤ cfg.perFile) (hjob : 1 ≤ cfg.perJob) (alpha β₁ β₂ lam k : R)
-    (es es' : List (Event String String)) (hp : applyPolicyAll cfg.policy es = some es') (hfit : Fits32 es) :
+    (cfg : NdlCfg) (alpha β₁ β₂ lam k : R)
+    (es es' : List (Event String String)) (hcfg : CfgOK cfg (countNames es).2.length)
+    (hp : applyPolicyAll cfg.policy es = some es') (hfit : Fits32 es) :
     ∃ a b, ndlModel magic version cfg alpha β₁ β₂ (k * lam) none es = .ok (a, es.length) ∧
       ndlModel magic version cfg alpha β₁ β₂ lam none es = .ok (b, es.length) ∧
       ∀ o c, a.get o c = k * b.get o c := by
-  obtain ⟨a, a1, a2⟩ := ndlModel_eq_spec magic version hm hv cfg hper hjob alpha β₁ β₂ (k * lam) es es' hp hfit
-  obtain ⟨b, b1, b2⟩ := ndlModel_eq_spec magic version hm hv cfg hper hjob alpha β₁ β₂ lam es es' hp hfit
+  obtain ⟨a, a1, a2⟩ := ndlModel_eq_spec magic version hm hv cfg alpha β₁ β₂ (k * lam) es es' hcfg hp hfit
+  obtain ⟨b, b1, b2⟩ := ndlModel_eq_spec magic version hm hv cfg alpha β₁ β₂ lam es es' hcfg hp hfit
   refine ⟨a, b, a1, b1, ?_⟩
   intro o c
   rw [a2, b2]
@@ -241,12 +247,13 @@ theorem ndlModel_lambda_homogeneous (magic version : Nat) (hm : magic < 42949672
 
 /-- **α = 0, for `ndl.ndl`** (its α is one number): the given weights come back -/
 theorem ndlModel_alpha_zero (magic version : Nat) (hm : magic < 4294967296) (hv : version < 4294967296)
-    (cfg : NdlCfg) (hper : 2 ≤ cfg.perFile) (hjob : 1 ≤ cfg.perJob) (β₁ β₂ lam : R)
-    (w : LW R) (es es' : List (Event String String)) (hp : applyPolicyAll cfg.policy es = some es')
+    (cfg : NdlCfg) (β₁ β₂ lam : R)
+    (w : LW R) (es es' : List (Event String String)) (hcfg : CfgOK cfg (mergedOutcomes w es).length)
+    (hp : applyPolicyAll cfg.policy es = some es')
     (hfit : Fits32With w es) :
     ∃ r, ndlModel magic version cfg 0 β₁ β₂ lam (some w) es = .ok (r, es.length) ∧
       ∀ o c, r.get o c = w.get o c := by
-  obtain ⟨r, h1, h2⟩ := ndlModel_continue_eq_spec magic version hm hv cfg hper hjob 0 β₁ β₂ lam w es es' hp hfit
+  obtain ⟨r, h1, h2⟩ := ndlModel_continue_eq_spec magic version hm hv cfg 0 β₁ β₂ lam w es es' hcfg hp hfit
   refine ⟨r, h1, ?_⟩
   intro o c
   rw [h2, rwLearn_alpha_zero]
@@ -254,12 +261,13 @@ theorem ndlModel_alpha_zero (magic version : Nat) (hm : magic < 4294967296) (hv 
 /-- **β₂ = 0, for `ndl.ndl`**: the row of an outcome that occurs in no event of the
     file comes back unchanged -/
 theorem ndlModel_beta2_zero (magic version : Nat) (hm : magic < 4294967296) (hv : version < 4294967296)
-    (cfg : NdlCfg) (hper : 2 ≤ cfg.perFile) (hjob : 1 ≤ cfg.perJob) (alpha β₁ lam : R)
-    (w : LW R) (es es' : List (Event String String)) (hp : applyPolicyAll cfg.policy es = some es')
+    (cfg : NdlCfg) (alpha β₁ lam : R)
+    (w : LW R) (es es' : List (Event String String)) (hcfg : CfgOK cfg (mergedOutcomes w es).length)
+    (hp : applyPolicyAll cfg.policy es = some es')
     (hfit : Fits32With w es) (o : String) (ho : ∀ e ∈ es, o ∉ e.outcomes) :
     ∃ r, ndlModel magic version cfg alpha β₁ 0 lam (some w) es = .ok (r, es.length) ∧
       ∀ c, r.get o c = w.get o c := by
-  obtain ⟨r, h1, h2⟩ := ndlModel_continue_eq_spec magic version hm hv cfg hper hjob alpha β₁ 0 lam w es es' hp hfit
+  obtain ⟨r, h1, h2⟩ := ndlModel_continue_eq_spec magic version hm hv cfg alpha β₁ 0 lam w es es' hcfg hp hfit
   refine ⟨r, h1, ?_⟩
   intro c
   rw [h2]
